@@ -170,7 +170,7 @@ fn same_span(a: rustc_span::Span, b: rustc_span::Span) -> bool {
 }
 
 /// the call site of the innermost `debug_assert*!` invocation this span was expanded from, if any
-fn debug_assert_site(sp: rustc_span::Span) -> Option<rustc_span::Span> {
+pub fn debug_assert_site(sp: rustc_span::Span) -> Option<rustc_span::Span> {
     for e in sp.macro_backtrace() {
         if let rustc_span::ExpnKind::Macro(_, name) = e.kind {
             let n = name.as_str();
